@@ -11,6 +11,8 @@ from contextlib import contextmanager
 
 import numpy as np
 
+from pyxel.util import _verif
+
 
 @contextmanager
 def set_random_seed(seed: int | None = None):
@@ -25,11 +27,21 @@ def set_random_seed(seed: int | None = None):
     """
     if seed is not None:
         previous_state = np.random.get_state()
+        if _verif.ENABLED:
+            _verif.emit(
+                "seed_enter", seed=int(seed), state=_verif.state_digest(previous_state)
+            )
         try:
             np.random.seed(seed)
             yield
         finally:
             np.random.set_state(previous_state)
+            if _verif.ENABLED:
+                _verif.emit(
+                    "seed_exit",
+                    seed=int(seed),
+                    state=_verif.state_digest(np.random.get_state()),
+                )
     else:
         # Do nothing
         yield
